@@ -31,6 +31,9 @@ class BuckGophermapHandler(BaseHandler):
                 and stat.S_ISREG(self.statresult[stat.ST_MODE])
                 and self.getselector().endswith(".gophermap")
             ):
+                # A map file is served as a menu: announce it as one.
+                self.entry.type = "1"
+                self.entry.mimetype = "application/gopher-menu"
                 self.entry.populatefromvfs(self.vfs, self.getselector())
             else:
                 self.entry.populatefromfs(
